@@ -27,6 +27,10 @@ pub enum Op {
     /// a crafted message with one item part (have_local = true: no reply expected)
     Msg { entries: Vec<(usize, Vec<u8>, Option<usize>, u64, u8, bool)>, peer: u8 },
     Policy { pol: Pol },
+    /// (first op only) the document starts with the read capability
+    StartReadOnly,
+    /// `import_namespace` while the document is open and subscribed: `write` upgrades
+    Import { write: bool },
 }
 
 pub struct C12 {
@@ -73,7 +77,7 @@ impl Property for C12 {
         false // the store actor runs on its own thread: the clock hook has to be process-global
     }
     fn rule(&self) -> String {
-        "histories of 3-20 requests through a SyncHandle over one open document: up to 4 subscriber channels joining (open/subscribe), leaving (unsubscribe) or dropping their receiver; local inserts and prefix deletions, remote inserts (valid, forged, superseded), crafted reconciliation messages whose entries are partly obsoleted by earlier local writes or invalid, download policy changes; all channels drained after every acknowledged request; non-trivial = at least one event was delivered while >= 2 subscribers were present or after a subscriber left".into()
+        "histories of 3-20 requests through a SyncHandle over one open document (in a fifth of the cases it starts read-only; capabilities are imported and upgraded while it is open and subscribed): up to 4 subscriber channels joining (open/subscribe), leaving (unsubscribe) or dropping their receiver; local inserts and prefix deletions, remote inserts (valid, forged, superseded), crafted reconciliation messages whose entries are partly obsoleted by earlier local writes or invalid, download policy changes; all channels drained after every acknowledged request; non-trivial = at least one event was delivered while >= 2 subscribers were present or after a subscriber left".into()
     }
     fn corpus(&self) -> Vec<(String, Vec<Op>)> {
         vec![
@@ -101,6 +105,10 @@ impl Property for C12 {
     }
     fn generate(&self, rng: &mut Rng, _i: usize, thorough: bool) -> Vec<Op> {
         let mut ops = vec![];
+        let read_only = rng.chance(1, 5);
+        if read_only {
+            ops.push(Op::StartReadOnly);
+        }
         if rng.chance(3, 4) {
             ops.push(Op::Subscribe { s: 0 });
         }
@@ -122,6 +130,7 @@ impl Property for C12 {
                         peer: rng.below(3) as u8,
                     }
                 }
+                18 if read_only || rng.chance(1, 3) => Op::Import { write: rng.chance(2, 3) },
                 _ => Op::Policy { pol: gen_pol(rng) },
             });
         }
@@ -134,13 +143,22 @@ impl Property for C12 {
         let nshex = hex(nsid.as_bytes());
         iroh_docs::verif::set_clock_micros(Some(NOW));
         let mut store = iroh_docs::store::Store::memory();
-        store.new_replica(ns.clone())?;
-        store.close_replica(nsid);
+        let read_only = matches!(ops.first(), Some(Op::StartReadOnly));
+        if read_only {
+            store.import_namespace(iroh_docs::sync::Capability::Read(nsid))?;
+        } else {
+            store.new_replica(ns.clone())?;
+            store.close_replica(nsid);
+        }
         for a in &self.keys.authors {
             store.import_author(a.clone())?;
         }
         let handle = SyncHandle::spawn(store, None, "c12".into());
-        let mut lines = vec![Line::model(format!("enew 1 {nshex} 1 {}", hex(&ns.to_bytes())), "ok")];
+        let mut lines = vec![if read_only {
+            Line::model(format!("enew 1 {nshex} 2 {nshex}"), "ok")
+        } else {
+            Line::model(format!("enew 1 {nshex} 1 {}", hex(&ns.to_bytes())), "ok")
+        }];
         // ground truth for forged entries, by construction
         let forged: std::cell::RefCell<Vec<SignedEntry>> = Default::default();
         let tok = |e: &SignedEntry| -> String {
@@ -196,6 +214,13 @@ impl Property for C12 {
                             }
                         }
                     }
+                    Op::StartReadOnly => {}
+                    Op::Import { write } => {
+                        let cap = if *write { iroh_docs::sync::Capability::Write(ns.clone()) } else { iroh_docs::sync::Capability::Read(nsid) };
+                        let (kind, raw) = cap.raw();
+                        let imp = match handle.import_namespace(cap).await { Ok(_) => "ok".to_string(), Err(e) => format!("err:{e}") };
+                        lines.push(Line::model(format!("eimport 1 {nshex} {kind} {}", hex(&raw)), imp));
+                    }
                     Op::Local { a, key, c, ts } => {
                         let author = &self.keys.authors[*a];
                         let (hash, len) = content(*c);
@@ -205,6 +230,7 @@ impl Property for C12 {
                         let imp = match r {
                             Ok(()) => "inserted".to_string(),
                             Err(e) if e.to_string().contains("newer entry exists") || e.to_string().contains("A newer entry") => "notinserted".to_string(),
+                            Err(e) if format!("{e:#}").to_lowercase().contains("read only") || format!("{e:#}").to_lowercase().contains("read access only") => "err:read-only".to_string(),
                             Err(e) => format!("err:{e}"),
                         };
                         lines.push(Line::model(format!("elocalres 1 {}", tok(&e)), imp));
@@ -217,6 +243,7 @@ impl Property for C12 {
                         let imp = match r {
                             Ok(n) => format!("inserted {n}"),
                             Err(e) if e.to_string().contains("newer entry") => "notinserted".to_string(),
+                            Err(e) if format!("{e:#}").to_lowercase().contains("read only") || format!("{e:#}").to_lowercase().contains("read access only") => "err:read-only".to_string(),
                             Err(e) => format!("err:{e}"),
                         };
                         lines.push(Line::model(format!("elocal 1 {}", tok(&e)), imp));
